@@ -6,7 +6,7 @@ From Boltons Require Import Lib.Prelude Spec.C09_Spec Model.C09_Model.
 From Boltons Require Import Proofs.C09_Strip Proofs.C09_Chunked Proofs.C09_Split Proofs.C09_Group.
 From Boltons Require Import Proofs.C09_Windowed Proofs.C09_Ranges Proofs.C09_Redundant Proofs.C09_WsLaws.
 From Boltons Require Import Model.C09_PyRanges Proofs.C09_PyRangesProof Gen.C09_Gen Proofs.C09_GenTie.
-From Boltons Require Import Gen.C09_Src Proofs.C09_SrcLoops.
+From Boltons Require Import Gen.C09_Src Proofs.C09_SrcLoops Proofs.C09_SrcStrip.
 
 (* ======================= chunked / chunked_iter ========================== *)
 (* for every input, every size >= 1 and every fill: the generator terminates
@@ -340,7 +340,8 @@ Example C09_chunk_ranges_source_ex :
 Proof. reflexivity. Qed.
 
 (* ===== (T) the SOURCE of the scanner loops, translated on every run ========= *)
-(* coq/Gen/C09_Src.v holds the loops of split_iter, unique_iter, bucketize, redundant and chunked_iter
+(* coq/Gen/C09_Src.v holds the loops of split_iter, unique_iter, bucketize, redundant, chunked_iter,
+   lstrip_iter and rstrip_iter
    as harness/translators/c09_loops.py reads them from /repo's current source
    (the argument-dispatch preludes are compared literally).  They are the
    model loops, for all inputs - so the theorems above (str.split semantics,
@@ -388,6 +389,20 @@ Theorem C09_chunked_iter_source_is_model :
     = chunk_loop fuel size (if do_fill then Some fill_val else None) src.
 Proof. exact (fun fuel src size do_fill fill_val => gen_chunked_is_loop size do_fill fill_val fuel src). Qed.
 Print Assumptions C09_chunked_iter_source_is_model.
+
+(* lstrip_iter / rstrip_iter: consecutive and nested `for i in iterator` loops
+   over ONE shared one-shot iterator (fuelled fixpoints over the items still to
+   come; break / generator return / the leaked loop variable as in Python);
+   [Some] = no loop ran out of fuel.  strip_iter is their composition. *)
+Theorem C09_strip_iters_source_is_model :
+  forall l v,
+    Glstrip_iter l v = Some (m_lstrip v l)
+    /\ Grstrip_iter l v = Some (m_rstrip v l)
+    /\ match Glstrip_iter l v with Some m => Grstrip_iter m v | None => None end = Some (m_strip v l).
+Proof.
+  exact (fun l v => conj (gen_lstrip_is_model l v) (conj (gen_rstrip_is_model l v) (gen_strip_is_model l v))).
+Qed.
+Print Assumptions C09_strip_iters_source_is_model.
 
 Example C09_split_iter_source_ex :
   Gsplit_iter [1; 0; 0; 2; 0; 3; 0] (Nat.eqb 0) true false 1 = [[1]; [2; 0; 3; 0]]
